@@ -226,11 +226,24 @@ fn c01(case: &Case, ctx: &Ctx, rpt: &mut Report) {
                 Tri::No => {
                     // Attribute to a listed deviation only if one named quirk explains it.
                     let mut key = None;
+                    let mut undecided = false;
                     for (name, q) in C01_QUIRKS {
-                        if model.matches(&pc, Mode::May, *q) == Tri::Yes {
-                            key = Some(*name);
-                            break;
+                        match model.matches(&pc, Mode::May, *q) {
+                            Tri::Yes => {
+                                key = Some(*name);
+                                break;
+                            },
+                            Tri::Unknown => undecided = true,
+                            Tri::No => {},
                         }
+                    }
+                    if key.is_none() && undecided {
+                        // The path is outside the documented language, but whether a listed
+                        // deviation explains it could not be decided within the model's budget
+                        // (long paths under nested repetitions): neither a new violation nor a
+                        // known one.
+                        rpt.inconclusive("attribution-to-listed-deviation-exceeds-model-budget", json!({"expr": clip(case.expr), "path": clip(p)}));
+                        continue;
                     }
                     rpt.disagreement(
                         &ctx.known,
